@@ -31,6 +31,11 @@ package kex
 // ---- symmetric key derivation (C14): both keys have exactly the length the
 // suite requires and come out of the KDF over the shared secret ------------------------------
 //@ registry kex.ciphers via kex.RegisterCipherSuite keys 1,2,3,-17760704,-17760703,-17760706,-17760705
+// the algorithms of each registered cipher suite (FDO 1.1 table 4.x): encryption
+// algorithm, MAC algorithm (0 = AEAD, none) and PRF hash (crypto.SHA256 = 5, SHA384 = 6)
+//@ registry-values kex.ciphers arg1.EncryptAlg 1=1,2=2,3=3,-17760704=-65534,-17760703=-65531,-17760706=-65532,-17760705=-65529
+//@ registry-values kex.ciphers arg1.MacAlg 1=0,2=0,3=0,-17760704=5,-17760703=5,-17760706=6,-17760705=6
+//@ registry-values kex.ciphers arg1.PRFHash 1=5,2=5,3=5,-17760704=5,-17760703=5,-17760706=6,-17760705=6
 //@ spec macro suiteok(c) = encregistered(c.EncryptAlg) && (c.MacAlg == 0 || macregistered(c.MacAlg)) && (hsz(u(c.PRFHash)) == 32 || hsz(u(c.PRFHash)) == 48)
 
 //@ func kex.dhSymmetricKey
@@ -42,6 +47,7 @@ package kex
 //@   callassert KDF#1: @inputs arg0 == cipher.PRFHash && u(arg1) == u(shSe) && len(arg2) == 0
 //@   callsites KDF 1
 //@   callassert KDF#1: @secret BigOf(bytes(arg1)) == BigVal(u(secretInt))
+//@   callassert KDF#1: @width len(arg1) == ByteLenOf(BigVal(u(p)))
 
 //@ func kex.ecdhSymmetricKey
 //@   props C14 C05(functional) C02(functional) C10(sweep)
@@ -142,3 +148,37 @@ package kex
 //@   ensures @ownercurve ? !deviceIsRSA && dyntype(owner, "*ecdsa.PublicKey") ==> ownerIsP256 == (u(ownerKey.Curve) == CurveP256()) && ownerIsP384 == (u(ownerKey.Curve) == CurveP384()) && !ownerIsRSA2048 && !ownerIsRSA3072
 //@   ensures @ownerrsa ? !deviceIsRSA && dyntype(owner, "*rsa.PublicKey") ==> ownerIsRSA2048 == (RsaSize(u(ownerKey)) == 256) && ownerIsRSA3072 == (RsaSize(u(ownerKey)) == 384) && !ownerIsP256 && !ownerIsP384
 //@   ensures @ownerother ? !deviceIsRSA && !dyntype(owner, "*rsa.PublicKey") && !dyntype(owner, "*ecdsa.PublicKey") ==> !result
+
+// ---- session constructors (C02, C14): a new session holds no symmetric keys (so
+// nothing can be decrypted before the exchange completed: Decrypt rejects keys of the
+// wrong length), carries the requested cipher and the parameter size of its suite ----
+//@ func kex.init@ecdh.go$1
+//@   props C02 C14 C10(sweep)
+//@   sweep bounds,panic,make,nilmem
+//@   ensures @nokeys len(unwrap(result).SEK) == 0 && len(unwrap(result).SVK) == 0
+//@   ensures @suite unwrap(result).ID == cipher && unwrap(result).randSize == 16 && u(unwrap(result).xA) == u(xA)
+//@ func kex.init@ecdh.go$2
+//@   props C02 C14 C10(sweep)
+//@   sweep bounds,panic,make,nilmem
+//@   ensures @nokeys len(unwrap(result).SEK) == 0 && len(unwrap(result).SVK) == 0
+//@   ensures @suite unwrap(result).ID == cipher && unwrap(result).randSize == 48 && u(unwrap(result).xA) == u(xA)
+//@ func kex.init@dh.go$1
+//@   props C02 C14 C10(sweep)
+//@   sweep bounds,panic,make,nilmem
+//@   ensures @nokeys len(unwrap(result).SEK) == 0 && len(unwrap(result).SVK) == 0
+//@   ensures @suite unwrap(result).ID == cipher && unwrap(result).paramSize == 32 && unwrap(result).g == 2
+//@ func kex.init@dh.go$2
+//@   props C02 C14 C10(sweep)
+//@   sweep bounds,panic,make,nilmem
+//@   ensures @nokeys len(unwrap(result).SEK) == 0 && len(unwrap(result).SVK) == 0
+//@   ensures @suite unwrap(result).ID == cipher && unwrap(result).paramSize == 96 && unwrap(result).g == 2
+//@ func kex.init@oaep.go$1
+//@   props C02 C14 C10(sweep)
+//@   sweep bounds,panic,make,nilmem
+//@   ensures @nokeys len(unwrap(result).SEK) == 0 && len(unwrap(result).SVK) == 0
+//@   ensures @suite unwrap(result).ID == cipher && unwrap(result).paramSize == 32 && u(unwrap(result).xA) == u(xA)
+//@ func kex.init@oaep.go$2
+//@   props C02 C14 C10(sweep)
+//@   sweep bounds,panic,make,nilmem
+//@   ensures @nokeys len(unwrap(result).SEK) == 0 && len(unwrap(result).SVK) == 0
+//@   ensures @suite unwrap(result).ID == cipher && unwrap(result).paramSize == 96 && u(unwrap(result).xA) == u(xA)
